@@ -735,6 +735,13 @@ func (x *gen) wlgenOp(op string, extraArgs string) {
 	if x.g.chance(20) {
 		extraArgs += " twice=1"
 	}
+	if !strings.HasPrefix(sep, "char:") && x.g.chance(20) {
+		// both separator fields set: the function is what counts
+		extraArgs += " sepchar=" + encCps([]string{"-", "_", " ", "é", "::"}[x.g.intn(5)])
+	}
+	if strings.HasPrefix(sep, "custom:") && op == "wlgen" && L >= 2 && L <= 8 && x.g.chance(50) {
+		extraArgs += " stat=1"
+	}
 	x.emit("%s %s L=%d sep=%s cap=%s%s tape=%s%s", op, wa, L, sep, encCps(scheme), x.budget(), encWords(t), extraArgs)
 }
 
@@ -1430,6 +1437,8 @@ func (x *gen) faultOps() {
 			ct[i] = x.g.u32()
 		}
 		x.emit("wlgen words=97,98 titles=65,66 L=12 sep=char:_ cap=%s tape=%s twice=1", encCps("random"), encWords(ct))
+		x.emit("wlgen words=97,98 titles=65,66 L=12 sep=char:_ cap=%s tape=%s chunk=%d", encCps("random"), encWords(ct), x.g.next()%1000000)
+		x.emit("wlgen words=97,98,99 titles=65,66,67 L=5 sep=preset:d1 cap=%s tape=%s chunk=%d", encCps("one"), encWords(ct), x.g.next()%1000000)
 	}
 	for k := 0; k <= len(wt) && k <= 10; k++ {
 		e := ""
@@ -1504,6 +1513,12 @@ func generate(prop, tier string, seed uint64) []string {
 		rep(400, func() { x.charinfoOp(x.recipe(0)) })
 	case "C08":
 		x.wlLengthBlock()
+		// Entropy() on a source that fails at its first read: a panic, or the recipe's value — never another value
+		for _, sp := range []string{"preset:d1", "preset:ds", "preset:sym", "recipe:2/4/0/0/_/-/_", "preset:none", "char:45"} {
+			for _, L := range []int{1, 2, 5, 12} {
+				x.emit("wlent words=%s titles=%s L=%d sep=%s cap=%s tape=_", encList([]string{"aa", "bb", "cc"}), encList([]string{"Aa", "Bb", "Cc"}), L, sp, encCps(schemes[x.g.intn(5)]))
+			}
+		}
 		rep(500, func() { x.wlnewOp(8 * scale) })
 		rep(500, func() { x.wlgenOp("wlent", "") })
 	case "C09":
@@ -1516,6 +1531,14 @@ func generate(prop, tier string, seed uint64) []string {
 		x.emit("wlnew words=@agilesyllables show=0 reps=1")
 	case "C11":
 		rep(2500, x.mkidxOp)
+		// generated passwords round-trip with their own entropy (checked by the harness on every
+		// generation), zero-entropy recipes included
+		rep(150, func() { x.chargenOp(x.recipe(x.g.intn(4)), "") })
+		rep(150, func() { x.wlgenOp("wlgen", "") })
+		x.emit("chargen r=3/0/0/0/233/-/_ tape=0.0.0.0.0.0")
+		x.emit("chargen r=1/0/0/0/97/-/_ tape=0.0.0")
+		x.emit("wlgen words=%s titles=%s L=3 sep=char:45 cap=%s tape=0.0.0.0.0.0", encList([]string{"solo"}), encList([]string{"Solo"}), encCps("none"))
+		x.emit("wlgen words=%s titles=%s L=1 sep=preset:none cap=%s tape=0.0.0.0", encList([]string{"solo"}), encList([]string{"Solo"}), encCps("first"))
 	case "C12":
 		rep(3000, x.tokenizeOp)
 		rep(800, x.explodeOp)
@@ -1535,6 +1558,9 @@ func generate(prop, tier string, seed uint64) []string {
 	case "C15":
 		rep(8, x.collisionPairOps)
 		rep(6, x.sepHistoryOps)
+		// calls with another complete call made in the middle of them
+		rep(60, func() { x.chargenOp(x.recipe(x.g.intn(4)), fmt.Sprintf(" reenter=%d", 1+x.g.intn(6))) })
+		rep(60, func() { x.wlgenOp("wlgen", fmt.Sprintf(" reenter=%d", 1+x.g.intn(6))) })
 		rep(60, func() { x.historyOps(25) })
 	case "C16":
 		x.classRoleBlock()
